@@ -58,6 +58,25 @@ func runC11(c *an.Ctx) {
 						resets = append(resets, r)
 					}
 				}
+				// a helper method of the same package called on the same node that
+				// performs the reset on all of its paths counts as the reset
+				for _, call := range an.AllCalls(fn) {
+					callee := call.Common().StaticCallee()
+					recv := an.Recv(call)
+					if callee == nil || recv == nil || !an.SameObj(recv, base) || len(callee.Params) == 0 {
+						continue
+					}
+					if an.AlwaysDoes(callee, func(in ssa.Instruction) bool {
+						st, ok := in.(*ssa.Store)
+						if !ok {
+							return false
+						}
+						f, b := an.FieldOf(st.Addr)
+						return f == cache && an.SameObj(b, callee.Params[0]) && isReset(st)
+					}) {
+						resets = append(resets, call)
+					}
+				}
 				construct := content.Name() + "=>" + what
 				c.Check(an.Around(fn, st, resets), "O1", "R-PAIR", name, construct, st.Pos(),
 					fmt.Sprintf("store to %s is coupled with %s on every path", content.Name(), what),
@@ -119,7 +138,7 @@ func runC11(c *an.Ctx) {
 				"store to ProtoNode.builder without resetting the cached CID on some path: Cid() keeps returning the CID computed with the old builder")
 		}
 	}
-	c.Min("O1 content-field stores on non-fresh nodes", nO1, 8)
+	c.Min("O1 content-field stores on non-fresh nodes", nO1, 3)
 
 	// ---- O2: sortLinks followed by a store to encoded
 	nO2 := 0
@@ -137,7 +156,7 @@ func runC11(c *an.Ctx) {
 				"sortLinks() reorders links but encoded is neither reset nor recomputed on some path")
 		}
 	}
-	c.Min("O2 sortLinks calls", nO2, 4)
+	c.Min("O2 sortLinks calls", nO2, 1)
 
 	// ---- O3: discipline of the cached CID
 	nO3 := 0
@@ -169,7 +188,7 @@ func runC11(c *an.Ctx) {
 			}
 		}
 	}
-	c.Min("O3 stores to cached", nO3, 5)
+	c.Min("O3 stores to cached", nO3, 2)
 	if enc := p.Func(md, "ProtoNode", "EncodeProtobuf"); c.Need(enc != nil, "ProtoNode.EncodeProtobuf") {
 		recv := enc.Params[0]
 		// re-encode preceded by cached = Undef
@@ -257,7 +276,7 @@ func runC11(c *an.Ctx) {
 			}
 		}
 	}
-	c.Min("O4 link sorts", nO4, 2)
+	c.Min("O4 link sorts", nO4, 1)
 
 	// ---- O5: in-place stores to format.Link fields
 	nO5 := 0
@@ -299,30 +318,36 @@ func runC11(c *an.Ctx) {
 	// ---- O6: encoder keys vs decoder accessors
 	if mi, fi := p.Func(md, "ProtoNode", "marshalImmutable"), p.Func(md, "", "fromImmutableNode"); c.Need(mi != nil && fi != nil, "marshalImmutable/fromImmutableNode") {
 		keys := map[string]bool{}
-		for _, call := range an.CallsDeep(mi, an.M("github.com/ipld/go-ipld-prime/fluent/qp", "", "MapEntry")) {
-			if k, ok := an.ConstOf(call.Common().Args[1]); ok {
-				keys[strings.Trim(k.ExactString(), `"`)] = true
+		for _, g := range an.LocalReach(mi) {
+			for _, call := range an.Calls(g, an.M("github.com/ipld/go-ipld-prime/fluent/qp", "", "MapEntry")) {
+				if k, ok := an.ConstOf(call.Common().Args[1]); ok {
+					keys[strings.Trim(k.ExactString(), `"`)] = true
+				}
 			}
 		}
 		read := map[string]bool{}
-		for _, call := range an.AllCalls(fi) {
-			ci := an.Callee(call)
-			if strings.HasPrefix(ci.Name, "Field") && strings.Contains(ci.Pkg, "go-codec-dagpb") {
-				read[strings.TrimPrefix(ci.Name, "Field")] = true
+		for _, g := range an.LocalReach(fi) {
+			for _, call := range an.AllCalls(g) {
+				ci := an.Callee(call)
+				if strings.HasPrefix(ci.Name, "Field") && strings.Contains(ci.Pkg, "go-codec-dagpb") {
+					read[strings.TrimPrefix(ci.Name, "Field")] = true
+				}
 			}
 		}
-		an.Instrs(fi, func(in ssa.Instruction) {
-			if fa, ok := in.(*ssa.FieldAddr); ok {
-				if f, _ := an.FieldOf(fa); f != nil && f.Pkg() != nil && strings.Contains(f.Pkg().Path(), "go-codec-dagpb") {
-					read[f.Name()] = true
+		for _, g := range an.LocalReach(fi) {
+			an.Instrs(g, func(in ssa.Instruction) {
+				if fa, ok := in.(*ssa.FieldAddr); ok {
+					if f, _ := an.FieldOf(fa); f != nil && f.Pkg() != nil && strings.Contains(f.Pkg().Path(), "go-codec-dagpb") {
+						read[f.Name()] = true
+					}
 				}
-			}
-			if fa, ok := in.(*ssa.Field); ok {
-				if f, _ := an.FieldOf(fa); f != nil && f.Pkg() != nil && strings.Contains(f.Pkg().Path(), "go-codec-dagpb") {
-					read[f.Name()] = true
+				if fa, ok := in.(*ssa.Field); ok {
+					if f, _ := an.FieldOf(fa); f != nil && f.Pkg() != nil && strings.Contains(f.Pkg().Path(), "go-codec-dagpb") {
+						read[f.Name()] = true
+					}
 				}
-			}
-		})
+			})
+		}
 		want := []string{"Links", "Hash", "Name", "Tsize", "Data"}
 		for _, k := range want {
 			c.Check(keys[k] && read[k], "O6", "R-TABLE", an.FuncName(mi), "pbfield-"+k, mi.Pos(),
